@@ -251,9 +251,13 @@ class RealSession:
         cls = self.tokobj[ref[1]].token_class if ref[0] == "tok" and ref[1] < len(self.tokobj) else None
         return ["active", sc.split(" ") if sc else [], ra.get("client_id"), ra.get("sub"), cls]
 
-    def op_revoke_ep(self, client, ref):
+    def op_revoke_ep(self, client, ref, hint=None):
+        """hint: the optional token_type_hint; a wrong hint must not change the outcome (RFC 7009 2.1)"""
         ep = self.ep["token_revocation"]
-        p = ep.parse_request(self._token_req(client, {"token": self.tokval(ref)}))
+        body = {"token": self.tokval(ref)}
+        if hint:
+            body["token_type_hint"] = hint
+        p = ep.parse_request(self._token_req(client, body))
         e = self.err_of(p)
         if e:
             return ["err", e]
@@ -546,7 +550,8 @@ def materialise(rs, p):
     if k == "revoke_ep":
         ref = pick_token(rs, p[1], None)
         owner = rs._owner_client(ref, CLIENTS[0])
-        return ("revoke_ep", owner if p[2] < 0.8 else CLIENTS[int(p[2] * 100) % 3], ref)
+        hint = [None, None, "access_token", "refresh_token", "bogus_type"][int(p[1] * 1000) % 5]
+        return ("revoke_ep", owner if p[2] < 0.8 else CLIENTS[int(p[2] * 100) % 3], ref, hint)
     if k == "api_revoke":
         ref = pick_token(rs, p[1], None, 0.0)
         if ref[0] != "tok":
